@@ -92,5 +92,5 @@ class SimEngine:
 
 
 _s = SimEngine()
-for p in ("C09", "C20"):
+for p in ("C09", "C16", "C17", "C20"):
     ENGINES[p] = _s
